@@ -3,7 +3,7 @@ open Hd
 
 /-! Line-protocol driver for the response-header model (C15). All names / values / cookie lines are hex (latin-1 bytes),
     `-` is the empty string.
-      new | set N V | append N V | delete N | get N | setmany N:V,N:V,… (or -) | pset K V | pdel K | cookie NAME LINE | uncookie NAME LINE | emit -/
+      new | set N V | append N V | delete N | get N | setmany N:V,N:V,… (or -) | pset K V | pdel K | cookie NAME LINE | uncookie NAME LINE | emit | headers -/
 def cfg : Cfg String String := { norm := fun s => s.map Char.toLower, cookie := "set-cookie" }
 
 def hexVal (c : Char) : Nat :=
@@ -36,6 +36,7 @@ def step (r : Resp String) (line : String) : Resp String × String :=
   | ["cookie", n, l] => (setCookie r (unhex n) (unhex l), "ok")
   | ["uncookie", n, l] => (unsetCookie r (unhex n) (unhex l), "ok")
   | ["emit"] => (r, "hdrs " ++ showKV (emitAll cfg r))
+  | ["headers"] => (r, "hdrs " ++ showKV (headersCopy r))      -- the `resp.headers` property (a copy of the dict, in dict order)
   | _ => (r, "bad-op")
 
 partial def loop (h : IO.FS.Stream) (r : Resp String) : IO Unit := do
